@@ -552,8 +552,7 @@ func (r *Raft) Stop() {
 
 	// Cancel any pending operations. They would otherwise still be pending when the node
 	// is started again and could be resolved with the result of another operation.
-	respond(r.configurationResponseCh, Configuration{}, ErrNotLeader)
-	r.configurationResponseCh = nil
+	r.cancelPendingConfiguration()
 	r.operationManager.notifyLostLeaderShip(r.id, r.leaderID)
 	r.operationManager = newOperationManager(r.options.leaseDuration)
 
@@ -2138,12 +2137,23 @@ func (r *Raft) becomeFollower(leaderID string, term uint64) {
 	r.resetSnapshotFiles()
 
 	// Cancel any pending operations.
-	respond(r.configurationResponseCh, Configuration{}, ErrNotLeader)
-	r.configurationResponseCh = nil
+	r.cancelPendingConfiguration()
 	r.operationManager.notifyLostLeaderShip(r.id, r.leaderID)
 	r.operationManager = newOperationManager(r.options.leaseDuration)
 
 	r.logger.Infof("entered the follower state: term = %d", r.currentTerm)
+}
+
+// cancelPendingConfiguration resolves the future of a membership change that is still pending
+// when this node stops leading. A change that has been committed has taken place whether or not
+// this node has applied it yet, so its future is resolved successfully.
+func (r *Raft) cancelPendingConfiguration() {
+	if r.configuration != nil && r.configuration.Index <= r.commitIndex {
+		respond(r.configurationResponseCh, r.configuration.Clone(), nil)
+	} else {
+		respond(r.configurationResponseCh, Configuration{}, ErrNotLeader)
+	}
+	r.configurationResponseCh = nil
 }
 
 // stepDown transitions a node from the leader state to the follower state when it
@@ -2153,8 +2163,7 @@ func (r *Raft) stepdown() {
 	r.state = Follower
 
 	// Cancel any pending operations.
-	respond(r.configurationResponseCh, Configuration{}, ErrNotLeader)
-	r.configurationResponseCh = nil
+	r.cancelPendingConfiguration()
 	r.operationManager.notifyLostLeaderShip(r.id, r.leaderID)
 	r.operationManager = newOperationManager(r.options.leaseDuration)
 
